@@ -6,8 +6,8 @@ package stackage
 verif_on.go is only compiled with the `verif` build tag. It exposes
 the observation points and the raw state dump needed by the external
 verification harness. Nothing in this file alters the behaviour of
-the package: verifPoint only calls the (normally nil) VerifHook and
-VerifDump only reads.
+the package: verifPoint only calls the (normally nil) VerifHook,
+VerifDump only reads, and VerifClock only matters once it is called.
 */
 
 import (
@@ -16,8 +16,20 @@ import (
 	"sort"
 	"strings"
 	"sync"
+	"time"
 	"unsafe"
 )
+
+/*
+VerifClock puts the package clock (the private variable now) in the hands
+of the harness; nil hands it back to time.Now.
+*/
+func VerifClock(f func() time.Time) {
+	if f == nil {
+		f = time.Now
+	}
+	now = f
+}
 
 /*
 VerifHook, when non-nil, is called at each lock observation point with
